@@ -489,6 +489,8 @@ func (m *Model) Apply(c Call, o Obs) []Hit {
 		hits = m.applySeekS(c, o)
 	case "job":
 		hits = m.applyJob(c, o)
+	case "reconfig":
+		hits = m.applyReconfig(c, o)
 	case "tick", "acknack", "updateSub", "modifyPush", "updateTopic", "updateSubDL", "streamModack":
 		// nothing (only used by the fault-enumeration check, which does not consult the model's verdicts)
 	case "getTopic", "getSub", "getSnap", "listTopics", "listSubs", "listSnaps", "listTopicSubs", "delSnap":
@@ -1681,3 +1683,44 @@ func (m *Model) applyResource(c Call, o Obs) []Hit {
 }
 
 var filtStyle = filt.Style{}
+
+// ---------------------------------------------------------------------------
+// reconfiguration through UpdateSubscription (filter / retry policy): it only
+// affects what happens from now on (new publishes, new leases)
+
+var FilterPresets = map[string]*filt.Node{
+	"filter:none": nil,
+	"filter:x":    filt.H("x"),
+	"filter:notx": filt.N(filt.H("x")),
+	"filter:x=1":  filt.E("x", "1"),
+}
+
+func (m *Model) applyReconfig(c Call, o Obs) []Hit {
+	s := m.liveSub(c.Op.Sub)
+	if s == nil {
+		if o.Err != "NotFound" {
+			return []Hit{hit("update-absent-sub", pC12, "UpdateSubscription on absent subscription %s returned %q", c.Op.Sub, o.Err)}
+		}
+		return nil
+	}
+	if o.Err != "" {
+		return []Hit{hit("update-failed", []string{"C17"}, "UpdateSubscription(%s, %s) failed: %s", c.Op.Sub, c.Op.Tgt, o.Err)}
+	}
+	switch {
+	case strings.HasPrefix(c.Op.Tgt, "filter:"):
+		f, ok := FilterPresets[c.Op.Tgt]
+		if !ok {
+			panic("unknown preset " + c.Op.Tgt)
+		}
+		s.Cfg.Filter = f
+	case c.Op.Tgt == "retry:1s":
+		s.Cfg.MinBackoff, s.Cfg.MaxBackoff = time.Second, 0
+	case c.Op.Tgt == "retry:30s-max40s":
+		s.Cfg.MinBackoff, s.Cfg.MaxBackoff = 30*time.Second, 40*time.Second
+	case c.Op.Tgt == "retry:none":
+		s.Cfg.MinBackoff, s.Cfg.MaxBackoff = 0, 0
+	default:
+		panic("unknown reconfig " + c.Op.Tgt)
+	}
+	return nil
+}
